@@ -81,7 +81,27 @@ def check(run):
     app = bool(loop) and any(isinstance(s, ast.Expr) and isinstance(s.value, ast.Call) and method_call(s.value) == ("grams", "append") for s in loop[0].body)
     run.ob("C20.R5", "%s:numbers-from-zero" % rend.fq, init and inc and app, run.site(rend),
            "" if init and inc and app else "rend() must number grams 0,1,2.. (gn = 0; one append and gn += 1 per gram)")
-    run.floor("C20.R5", 3)
+    run.floor("C20.R5", 4)
+    # rend: the gram count is computed from the byte length of the buffer that is sliced
+    mem_defs = [n for n in rend.node.body if isinstance(n, ast.Assign) and dotted(n.targets[0]) == "memo"]
+    ml = [n for n in rend.node.body if isinstance(n, ast.Assign) and dotted(n.targets[0]) == "ml"]
+    ok = bool(mem_defs) and bool(ml) and unparse(ml[0].value) == "len(memo)" and "encode" in unparse(mem_defs[0].value) and mem_defs[0].lineno < ml[0].lineno \
+        and any("ml" in unparse(n.value) for n in rend.node.body if isinstance(n, ast.Assign) and dotted(n.targets[0]) == "gc")
+    run.ob("C20.R5", "%s:count-from-byte-length" % rend.fq, ok, run.site(rend, ml[0]) if ml else run.site(rend),
+           "" if ok else "the gram count must be computed from len() of the encoded byte buffer that the loop slices (characters != bytes for non-ASCII memos)")
+    # R7 order independence: accepting a gram must not depend on per-memo state written by other grams
+    reads = []
+    for n in walk_local(pick.node):
+        if isinstance(n, ast.Call) and isinstance(n.func, ast.Attribute) and n.func.attr == "get" and dotted(n.func.value) in ("self.vids", "self.counts", "self.rxgs", "self.sources"):
+            reads.append(n)
+        if isinstance(n, ast.Subscript) and dotted(n.value) in ("self.vids", "self.counts", "self.rxgs", "self.sources") and isinstance(n.ctx, ast.Load):
+            reads.append(n)
+    ok = not reads
+    run.ob("C20.R7", "%s:acceptance-independent-of-other-grams" % pick.fq, ok, run.site(pick, reads[0]) if reads else run.site(pick),
+           "" if ok else "pick() decides whether a gram is accepted (signature verification) using `%s`, per-memo state that only an earlier gram of the same memo "
+           "writes: a signed non-zeroth gram that arrives before its zeroth gram fails verification and is dropped, so the memo is never "
+           "reconstructed under that delivery order" % unparse(reads[0]))
+    run.floor("C20.R7", 1)
     # R6 completion memory
     left = sorted(consulted - deleted)
     ok = bool(left)
@@ -103,5 +123,6 @@ MUTANTS = [
     Mutant("auth-pair-size-mismatch", MM, "Memoer", "'bAAD': Sizage(bz=4, nz=4, mz=24, vz=0, az=88)", "'bAAD': Sizage(bz=4, nz=4, mz=24, vz=0, az=0)", {"C20.R2"}, canary=True),
     Mutant("fuse-dict-order", MM, "Memoer.fuse", "        for i in range(cnt):  # iterate in numeric order, items are insertion ordered\n            memo.extend(grams[i])", "        for i in grams:\n            memo.extend(grams[i])", {"C20.R5"}),
     Mutant("rend-numbers-from-one", MM, "Memoer.rend", "        gn = 0\n        while memo:", "        gn = 1\n        while memo:", {"C20.R5"}),
+    Mutant("count-from-char-length", MM, "Memoer.rend", "        memo = bytearray(memo.encode()) # convert and copy to bytearray\n", "        ml = len(memo)\n        memo = bytearray(memo.encode()) # convert and copy to bytearray\n", {"C20.R5"}),
     Mutant("silent-offset-reordered", MM, "Memoer.pick", "vid = bytes(gram[bz+mz+nz:bz+mz+nz+vz])", "vid = bytes(gram[bz+nz+mz:bz+nz+mz+vz])", silent=True),
 ]
